@@ -24,11 +24,11 @@ CHECKS = {
                 note=V + "."),
     "C06": dict(cat="exploration", ref="5 (C06)",
                 technique="bounded-liveness monitor on the synctest fake clock (progress within 50us virtual, about 1000 scheduler rounds) plus a real-time watchdog that classifies busy loops from stack samples",
-                text="'Eventually' is restated as bounded progress, which a finite run can decide: probes with nothing in flight, a lone priority with >= H buffered items, and full delivery + termination when handlers release everything. A stuck library shows either as an expired virtual deadline or as a spin caught by the watchdog.",
+                text="'Eventually' is restated as bounded progress, which a finite run can decide: probes with nothing in flight, a lone priority with >= H buffered items, a lone priority fed in several bursts (must keep progressing unless the scheduler's documented wait applies, which the divider itself decides), and full delivery + termination when handlers release everything. A stuck library shows either as an expired virtual deadline or as a spin caught by the watchdog.",
                 note=V + "; the lone-priority form is asserted for buffered data (with items trickling in the scheduler may by design wait for one more feedback)."),
     "C07": dict(cat="exploration", ref="5 (C07)",
                 technique="online monitor of closure events: never-early conditions evaluated at the instant a closure is observed, hold observations at quiescent points while a release is withheld / an idle input stays open, bounded wait for the closure afterwards; Err() values checked",
-                text="All orders of last close / last release / last read for all four variants; a Release that panics because the discipline closed early is attributed to this property by the driver.",
+                text="All orders of last close / last release / last read for all four variants, also across v1 AddInput / replace / RemoveInput, and for the simple variants ended roughly while Handle calls run (entered = returned at the instant Err() is seen closed); a Release that panics because the discipline closed early is attributed to this property by the driver.",
                 note=V + "."),
     "C15": dict(cat="fault_enumeration", ref="5 (C15)",
                 technique="wrapping divider as contract monitor on every call + single-fault enumeration over divider call indices (every index in a window, sampled later ones, state-triggered placements) with post-fault oracles on Err(), delivery window, capacity and termination; constructor grid",
@@ -40,7 +40,7 @@ CHECKS = {
                 note=V + "; Handle honours its context."),
     "C17": dict(cat="exploration", ref="5 (C17)",
                 technique="online history checker over v1 AddInput/RemoveInput scripts: tags per registered channel, frozen taken-count of removed/replaced channels observed at quiescent points, exactly-once per channel, capacity and termination oracles; divider contract monitor",
-                text="Scripts of add / replace / remove / re-add with fresh channel objects interleaved with traffic and releases; control calls run in their own goroutines, one at a time.",
+                text="Scripts of add / replace (also of closed and drained channels) / remove / re-add with fresh channel objects interleaved with traffic and releases; control calls run in their own goroutines, one at a time; a real-clock block races the control calls with H handler goroutines and live producers.",
                 note=V + "; H is chosen non-fatal for every subset of registrable priorities."),
     "C19": dict(cat="exploration", ref="5 (C19)",
                 technique="goroutine census (runtime.Stack filtered by 'created by <library function>') at quiescent points after every way of terminating every discipline on the fake clock; process-wide census with grace period on the real clock",
@@ -64,7 +64,7 @@ CHECKS = {
                 note=V + "; the Go race detector sees only executed paths; reading s[len:cap] of an owned slice is allowed."),
     "C09": dict(cat="exploration", ref="5 (C09), 2 (V, R)",
                 technique="offline history checker: slice boundaries against greedy maximality and a lower bound on the delivery time of short non-final slices (write-start / receive stamps on the conservative side)",
-                text="Every generated execution is judged: without timeout all non-final slices must be maximal; with timeout a short non-final slice must not arrive earlier than Timeout after the previous delivery (exact on the fake clock with a ready consumer, lower bound via write-start stamps otherwise, also sound on the real clock).",
+                text="Every generated execution is judged: without timeout all non-final slices must be maximal; with timeout a short non-final slice must not arrive earlier than Timeout after the previous delivery (exact on the fake clock with a ready consumer; with slow consumers two sound lower bounds: write-start of the previous slice's last element, and the moment the consumer made room in the output buffer for the previous slice; both also sound on the real clock).",
                 note=V + "; equal-instant ties between ticks and arrivals are accepted in either order (oracles are inequalities)."),
     "C10": dict(cat="exploration", ref="5 (C10), 2 (V)",
                 technique="offline timing-trace checker on the synctest fake clock: (receive - write completion of the oldest element) * d <= Timeout * (d+1) for every output slice, consumer always ready",
@@ -72,11 +72,11 @@ CHECKS = {
                 note=V + "."),
     "C11": dict(cat="exploration", ref="5 (C11), 2 (V, R)",
                 technique="offline history checker: positional containment of every input slice in exactly one output slice of the real unite discipline",
-                text="Generated length sequences over {0,1,<J,=J,>J,>>J} with re-sent slice objects and timeouts firing in between; every execution judged after concatenation equality was established.",
+                text="Generated length sequences over {0,1,<J,=J,>J,>>J} with re-sent slice objects and timeouts firing in between; every execution judged positionally after concatenation equality was established, and by element values when the concatenation differs.",
                 note=V + "."),
     "C12": dict(cat="exploration", ref="5 (C12), 2 (V, R)",
                 technique="offline history + timing checker for the real limit discipline: sequence equality and closure order on both clocks, the two no-extra-throttling forms on the synctest fake clock",
-                text="Element counts around 0, Q-1, Q, Q+1, kQ, kQ+-1, Quantity 1, unbuffered inputs; sequence/closure judged on every run, exact timing forms (no pause below Quantity; up-front elements within ceil(N/Q) intervals + 1%) on the fake clock with a ready consumer.",
+                text="Element counts around 0, Q-1, Q, Q+1, kQ, kQ+-1, Quantity 1, unbuffered inputs; sequence/closure judged on every run, exact timing forms on the fake clock with a ready consumer: no pause below Quantity; up-front elements within ceil(N/Q) intervals + 1%; an element is held back only by its arrival, by order, or by the element Quantity places before it + Interval. Quantity includes 'unlimited' values around 2^63 / 2^64-1.",
                 note=V + "; only the two timing forms the property states are asserted."),
     "C13": dict(cat="exploration", ref="5 (C13), 2 (P)",
                 technique="reference-model monitor: real Rate.Recalculate/Optimize/Flatten executed on generated inputs, each return value judged by a math/big oracle",
